@@ -85,18 +85,30 @@ def r1(F, R):
         raise Unverifiable(f"World::collection: {len(cs)}")
     b = cs[0]
     for kw in ("given", "when", "then"):
-        calls = [(s, t) for s, t in b.calls(lambda t: callee_is(t, r"step::Collection::<.*>::" + kw + "$"))]
+        calls = [(nb, s, t) for nb in F.nested(b) for s, t in nb.calls(lambda t: callee_is(t, r"step::Collection::<.*>::" + kw + "$"))]
         ok = False
         why = f"{len(calls)} calls of Collection::{kw}"
         if len(calls) == 1:
-            s, t = calls[0]
-            sl = A.slice_back(b, t["args"][1:], stop_calls=[r"step::Collection::<.*>::(given|when|then)$"])
-            its = [(op_fn(c["func"]) or {}).get("full", "") for _, c in sl.calls if callee_is(c, r"IntoIterator::into_iter$")]
-            kinds = {m.group(1) for x in its for m in [re.search(r"WorldInventory>::(\w+)", x)] if m}
+            nb, s, t = calls[0]
+            STOP = [r"step::Collection::<.*>::(given|when|then)$"]
+            sl = A.slice_back(nb, t["args"][1:], stop_calls=STOP)
             inner = sl.has_call(r"StepConstructor::inner$")
             some = any(rv.get("adt") == "std::option::Option" and rv["variant"] == "Some" for _, rv in sl.aggs)
+            src_calls = list(sl.calls)
+            if nb is not b:
+                # registered from a closure (`.fold(out, |out, given| out.given(..))`, `for_each`): the items come from the receiver of the
+                # adaptor the closure is handed to
+                cc = A.closure_creation(F, nb)
+                if cc is not None and cc[0] is b:
+                    uses, _ = A.forward_uses(b, cc[2]["pl"]["l"])
+                    for _, ut, idx in uses:
+                        if idx >= 1 and callee_is(ut, r"Iterator::(fold|for_each|try_fold|map)$"):
+                            src_calls += list(A.slice_back(b, [ut["args"][0]], stop_calls=STOP).calls)
+            its = [(op_fn(c["func"]) or {}).get("full", "") for _, c in src_calls if callee_is(c, r"IntoIterator::into_iter$")]
+            kinds = {m.group(1) for x in its for m in [re.search(r"WorldInventory>::(\w+)", x)] if m}
             ok = kinds == {kw.capitalize()} and inner and some
             why = f"fed from inventory::iter::<{sorted(kinds)}>, inner()={inner}, Some(loc)={some}"
+        calls = [(c[1], c[2]) for c in calls]
         R.check(ok, f"collection/{kw}", calls[0][0] if calls else b, f"Self::{kw.capitalize()} -> Collection::{kw}(Some(loc), regex(), fn)",
                 f"World::collection registers into `{kw}` items {why}")
     R.floor(3)
